@@ -14,6 +14,18 @@ hp = os.path.join(ROOT, "MANIFEST.hooks")
 if os.path.exists(hp):
     hooks_commits = [l.split()[0] for l in open(hp) if l.strip() and not l.startswith("#")]
 
+# level text: the entry of lib/props.py when it has one, else the row of DESIGN.md table 0.1 (what is proved for all
+# inputs / histories, what is partial or by testing only)
+design_rows = {}
+try:
+    for line in open(os.path.join(ROOT, "DESIGN.md")):
+        if line.startswith("| C") and line.count(" | ") >= 2:
+            cells = [c.strip() for c in line.strip().strip("|").split(" | ")]
+            if len(cells) >= 3 and len(cells[0]) == 3 and cells[0] not in design_rows:
+                design_rows[cells[0]] = "Proved for all inputs / histories: %s. Partial or by testing only: %s" % (cells[1], " | ".join(cells[2:]).rstrip(" |"))
+except OSError:
+    pass
+
 checks = []
 for pid in ids:
     if pid not in PROPS or PROPS[pid].get('pending'):
@@ -26,7 +38,7 @@ for pid in ids:
         evidence_file="evidence/%s.json" % pid,
         replay_cmd_template="bin/check %s --replay {path}" % pid,
         engine="coq",
-        level_claimed=dict(category="proof", text=c.get("level_text", ""), design_ref=c.get("design_ref", "")),
+        level_claimed=dict(category="proof", text=c.get("level_text") or design_rows.get(pid, ""), design_ref=c.get("design_ref", "")),
         level_note="; ".join(COMMON_TRUST + c.get("trusted", [])),
         technique=c.get("technique", "Coq theorems over a Gallina model + in-Coq (vm_compute) correspondence with the real code"),
     ))
